@@ -515,8 +515,63 @@ class Executor:
         st2.locals[acc] = v
         return [(st2, ('fall',))]
 
+    def _dict_fill(self, s, st: State, fctx: FuncInfo):
+        """the fill idiom   D1 = {} ; D2 = {} ; for k in S: D1[k] = e1 ; D2[k] = e2   is
+        D1 = {k: e1 for k in S} ; D2 = {k: e2 for k in S}: one canonical form for both"""
+        if not isinstance(s, ast.For) or s.orelse or not s.body or not isinstance(s.target, ast.Name):
+            return None
+        tv = s.target.id
+        fills = []
+        for b in s.body:
+            if not (isinstance(b, ast.Assign) and len(b.targets) == 1 and isinstance(b.targets[0], ast.Subscript)
+                    and isinstance(b.targets[0].slice, ast.Name) and b.targets[0].slice.id == tv):
+                return None
+            d = b.targets[0].value
+            if isinstance(d, ast.Name):
+                cur, key = st.locals.get(d.id), d.id
+            elif isinstance(d, ast.Attribute) and isinstance(d.value, ast.Name) and d.value.id == 'self':
+                key = plain(term(self.subst(d, st, fctx, load_target=False)))
+                cur = st.heap.get(key)
+            else:
+                return None
+            empty = (isinstance(cur, ast.Call) and isinstance(cur.func, ast.Name) and cur.func.id == 'dict'
+                     and not cur.args and not cur.keywords) or (isinstance(cur, ast.Dict) and not cur.keys)
+            if not empty or key in [k for k, _d, _v in fills]:
+                return None
+            fills.append((key, d, b.value))
+        names = {k for k, _d, _v in fills}
+        for part in [v for _k, _d, v in fills] + [s.iter]:
+            for c in ast.walk(part):
+                if isinstance(c, (ast.Yield, ast.YieldFrom, ast.NamedExpr)):
+                    return None
+                if isinstance(c, ast.Name) and c.id in names:
+                    return None
+                if isinstance(c, ast.Attribute) and isinstance(c.value, ast.Name) and c.value.id == 'self' \
+                        and ('self.' + c.attr) in names:
+                    return None
+                if isinstance(c, ast.Call):
+                    f = c.func
+                    nm = f.id if isinstance(f, ast.Name) else f.attr if isinstance(f, ast.Attribute) else ''
+                    if nm not in PURE_FUNCS and nm not in PURE_METHODS:
+                        return None
+        cur_st = st
+        for key, d, val in fills:
+            comp = ast.DictComp(key=ast.Name(id=tv, ctx=ast.Load()), value=val,
+                                generators=[ast.comprehension(target=s.target, iter=s.iter, ifs=[], is_async=0)])
+            alts = self.ev(comp, cur_st, fctx)
+            if len(alts) != 1 or alts[0][2]:
+                return None
+            cur_st, v, _ = alts[0]
+            tgt = copy.deepcopy(d)
+            tgt.ctx = ast.Store()
+            self.assign(tgt, v, cur_st, fctx, s.lineno)
+        return [(cur_st, ('fall',))]
+
     def exec_loop(self, s, st: State, fctx: FuncInfo):
         red = self._reduction(s, st, fctx)
+        if red is not None:
+            return red
+        red = self._dict_fill(s, st.fork(), fctx) if isinstance(s, ast.For) else None
         if red is not None:
             return red
         ln = s.lineno
@@ -1298,7 +1353,7 @@ class _Ev:
                 return [(st, val, None)]
             # module function through import (random.uniform, heapq.heappush ...)
             full = rterm + '.' + meth
-            if meth in PURE_METHODS or full in x.opts.pure_calls:
+            if meth in PURE_METHODS or full in x.opts.pure_calls or full == 'dict.fromkeys':
                 return [(st, ast.Call(func=ast.Attribute(value=recv, attr=meth, ctx=ast.Load()), args=args,
                                       keywords=[ast.keyword(arg=k, value=v) for k, v in kwargs]), None)]
             out = self.effect_call(full, ast.Attribute(value=recv, attr=meth, ctx=ast.Load()), args, kwargs, st, ln)
